@@ -52,7 +52,7 @@ func runCheck(args []string) {
 	seed := 0
 	fmt.Sscanf(os.Getenv("VERIF_SEED"), "%d", &seed)
 	t0 := time.Now()
-	quick, full := 8*time.Second, 60*time.Second
+	quick, full := 8*time.Second, 150*time.Second
 	if *tier == "thorough" {
 		quick, full = 20*time.Second, 300*time.Second
 		crossCheck = true
